@@ -521,17 +521,20 @@ def job_trajectories(item):
 
     def bern_rvs(p, *a, **k):
         opts = [v for v, w in ((1, p), (0, 1 - p)) if w > 0]
-        return opts[0] if len(opts) == 1 else opts[decide(len(opts), None)]
+        return opts[0] if len(opts) == 1 else opts[decide(len(opts), [w for v, w in ((1, p), (0, 1 - p)) if w > 0])]
+    rlog = []  # probabilities of the options at every genuine decision of the reference run
+
     # reference executor over the own reading of the text, same scripted sources
     def ref_run(script_ref):
         rpos = [0]
         cpos = [0]
 
-        def rdecide(n_opts=2):
+        def rdecide(n_opts=2, probs=None):
             if n_opts == 1:
                 return 0
             c = script_ref[rpos[0]] if rpos[0] < len(script_ref) else 0
             rpos[0] += 1
+            rlog.append(probs)
             return c
         I = Interp(prog)
 
@@ -558,19 +561,22 @@ def job_trajectories(item):
                 else:
                     vals = [(evalq(v, read), evalq(p, read)) for v, p in a.payload]
                     opts = [v for v, p in vals if p > 0]
-                    env[a.var] = QPoly.const(opts[rdecide(len(opts))])
+                    env[a.var] = QPoly.const(opts[rdecide(len(opts), [p for v, p in vals if p > 0])])
             elif a.kind == "dist":
                 fam, params = a.payload
                 params = [QPoly.const(evalq(q, read)) for q in params]
                 if fam in distref.DISCRETE:
                     oc = [(v, p) for v, p in distref.discrete_outcomes(fam, params)]
+                    pr = None
                     if fam == "Bernoulli":
                         opts = [v for v, p in oc if p.cval() > 0]
+                        pr = [p.cval() for v, p in oc if p.cval() > 0]
                     elif fam == "Categorical":
                         opts = [v for v, p in oc if p.cval() > 0]
+                        pr = [p.cval() for v, p in oc if p.cval() > 0]
                     else:
                         opts = [v for v, p in oc]
-                    env[a.var] = opts[rdecide(len(opts))]
+                    env[a.var] = opts[rdecide(len(opts), pr)]
                 else:
                     env[a.var] = QPoly.const(Fraction(str(cont_vals[cpos[0] % len(cont_vals)])))
                     cpos[0] += 1
@@ -595,6 +601,7 @@ def job_trajectories(item):
                 else:
                     run_assign(s, env, env)
         env = {}
+        rlog.clear()
         run(prog.initial, env)
         states = [dict(env)]
         for _ in range(K):
@@ -639,6 +646,24 @@ def job_trajectories(item):
                         break
                 if bad:
                     break
+            if not bad and len(rlog) == len(log):
+                # the weights handed to the random source at every decision are the probabilities of the semantics
+                for di, ((_, w), pr) in enumerate(zip(log, rlog)):
+                    if w is None or pr is None or len(w) != len(pr):
+                        continue
+                    tw = float(sum(w))
+                    if tw <= 0:
+                        continue
+                    out["checked"] += 1
+                    if any(abs(float(a) / tw - float(b)) > 1e-9 for a, b in zip(w, pr)):
+                        out["records"].append({"kind": "violation", "key": f"weights|{pid}", "tag": pid,
+                                               "what": f"simulated run of {pid} with scripted choices {used}: decision #{di} draws with weights {[round(float(a) / tw, 6) for a in w]}, "
+                                                       f"the semantics gives probabilities {[str(b) for b in pr]}",
+                                               "replay": {"text": text, "script": used, "decision": di}})
+                        bad = "weights"
+                        break
+                if bad:
+                    break
             if bad:
                 out["records"].append({"kind": "violation", "key": f"trajectory|{pid}", "tag": pid,
                                        "what": f"simulated trajectory of {pid} with scripted random choices {used}: after iteration {bad[0]} variable {bad[1]} is {bad[2]}, reference semantics {bad[3]}",
@@ -670,6 +695,9 @@ def main():
     progs = families.corpus() + families.corpus("corpus_class") + families.generated(run.quick, run.seed, count=(30 if run.quick else 300))
     for pid, text, goals in progs:
         work.append((job_trajectories, {"id": pid, "text": text, "K": 2 if run.quick else 3, "max_paths": 150 if run.quick else 600}, f"trajectory/{pid}"))
+    # choices / draws whose probabilities depend on the (changing) state: the weights have to be read in every draw
+    for pid, text, goals in families.corpus("corpus_sim"):
+        work.append((job_trajectories, {"id": pid, "text": text, "K": 4, "max_paths": 300}, f"trajectory/{pid}"))
     if run.args.only:
         work = [w for w in work if run.args.only in w[2]]
 
